@@ -20,8 +20,33 @@ pub fn gen_valid_msg(mt: &str, src: &mut Src) -> GenMsg {
 
 /// Is `k` a field tag key (`20`, `50K`, …)?
 pub fn is_tag_key(k: &str) -> bool {
+    // `20`, `50K`, and occurrence-suffixed keys such as `34F_1`
+    let k = match k.find('_') {
+        Some(i) if k[i + 1..].chars().all(|c| c.is_ascii_digit()) && i + 1 < k.len() => &k[..i],
+        _ => k,
+    };
     let b = k.as_bytes();
     (b.len() == 2 || (b.len() == 3 && b[2].is_ascii_uppercase())) && b[0].is_ascii_digit() && b[1].is_ascii_digit()
+}
+
+fn tag_of_key(k: &str) -> String {
+    match k.find('_') {
+        Some(i) => k[..i].to_string(),
+        None => k.to_string(),
+    }
+}
+
+/// `{"60": {"F": {...}}}`: an un-flattened option enum; the tag is key + letter
+fn nested_option(k: &str, v: &Value) -> Option<(String, Value)> {
+    if k.len() != 2 {
+        return None;
+    }
+    let o = v.as_object()?;
+    if o.len() != 1 {
+        return None;
+    }
+    let (lk, lv) = o.iter().next()?;
+    if lk.len() == 1 && lk.as_bytes()[0].is_ascii_uppercase() && lv.is_object() { Some((format!("{k}{lk}"), lv.clone())) } else { None }
 }
 
 /// Occurrences of field values in a message-body JSON, as (sequence path, tag, value),
@@ -31,16 +56,20 @@ pub fn json_occurrences(v: &Value, path: &mut Vec<usize>, out: &mut Vec<(Vec<usi
     if let Value::Object(o) = v {
         for (k, val) in o {
             if is_tag_key(k) {
+                let tag = tag_of_key(k);
                 match val {
                     Value::Array(a) => {
                         for x in a {
                             if !x.is_null() {
-                                out.push((path.clone(), k.clone(), x.clone()));
+                                out.push((path.clone(), tag.clone(), x.clone()));
                             }
                         }
                     }
                     Value::Null => {}
-                    other => out.push((path.clone(), k.clone(), other.clone())),
+                    other => match nested_option(&tag, other) {
+                        Some((t, v)) => out.push((path.clone(), t, v)),
+                        None => out.push((path.clone(), tag.clone(), other.clone())),
+                    },
                 }
             }
         }
@@ -68,4 +97,216 @@ pub fn json_occurrences(v: &Value, path: &mut Vec<usize>, out: &mut Vec<(Vec<usi
 
 pub fn comps_of(fields: &[GenField]) -> Vec<Comp> {
     fields.iter().flat_map(|f| f.comps.clone()).collect()
+}
+
+// ------------------------------------------------------------------ structural mutations
+
+use crate::layout::known_tags;
+use crate::refs::Tok;
+use serde::{Deserialize, Serialize};
+
+#[derive(Clone, Debug, Serialize, Deserialize)]
+pub struct MutCase {
+    pub mt: String,
+    pub toks: Vec<Tok>,
+    /// mutation class ("valid" = none)
+    pub mutation: String,
+    /// tag the mutation concerns
+    pub tag: String,
+    /// true when the mutated content is rejected by the field's own parser
+    pub bad_content: bool,
+    pub crlf: bool,
+    pub wrapper: bool,
+    /// parse through SwiftParser::parse::<T> with an envelope instead of parse_from_block4
+    pub envelope: bool,
+}
+
+impl MutCase {
+    pub fn text(&self) -> String {
+        let nl = if self.crlf { "\r\n" } else { "\n" };
+        let mut s = String::new();
+        if self.wrapper {
+            s.push_str(nl);
+        }
+        for t in &self.toks {
+            s.push(':');
+            s.push_str(&t.tag);
+            s.push(':');
+            s.push_str(&t.content.replace('\n', nl));
+            s.push_str(nl);
+        }
+        if !self.wrapper {
+            s.push('-');
+        }
+        s
+    }
+    pub fn enveloped(&self) -> String {
+        let nl = if self.crlf { "\r\n" } else { "\n" };
+        let mut s = format!("{{1:F01BANKDEFFAXXX0000000000}}{{2:I{}BANKDEFFAXXXN}}{{4:{}", self.mt, nl);
+        for t in &self.toks {
+            s.push(':');
+            s.push_str(&t.tag);
+            s.push(':');
+            s.push_str(&t.content.replace('\n', nl));
+            s.push_str(nl);
+        }
+        s.push_str("-}");
+        s
+    }
+}
+
+pub fn toks_of(m: &GenMsg) -> Vec<Tok> {
+    m.fields.iter().map(|f| Tok { tag: f.tag.clone(), content: f.content.clone() }).collect()
+}
+
+const UNKNOWN_TAGS: &[&str] = &["99Z", "14A", "18A", "22C", "29B", "31C", "38J", "40A", "47A", "78", "83A", "95P", "00", "27"];
+
+/// documented repetition caps of sequences: (mt, cap)
+pub const CAPS: &[(&str, usize)] = &[("110", 10), ("204", 10), ("210", 10), ("935", 10), ("920", 100)];
+
+/// content that the field's own parser rejects and that cannot be mistaken for a field start
+pub fn bad_content_for(tag: &str, src: &mut Src) -> Option<String> {
+    let sp = crate::fieldkit::spec_of_tag(tag)?;
+    for _ in 0..6 {
+        let c = crate::fieldkit::mutate(sp.ty, src);
+        let t = &c.content;
+        if t.is_empty() || t.contains("\n:") || t.contains("\n-") || t.starts_with(':') || t.contains('\r') || !t.is_ascii() || t.starts_with('\n') || t.ends_with('\n') || t.contains("\n\n") {
+            continue;
+        }
+        if (crate::lib_api::field_ops(sp.ty).parse)(t).is_err() {
+            return Some(t.clone());
+        }
+    }
+    None
+}
+
+pub fn mutate_msg(mt: &str, src: &mut Src) -> MutCase {
+    let base = gen_valid_msg(mt, src);
+    let mut toks = toks_of(&base);
+    let crlf = src.chance(1, 4);
+    let wrapper = src.flip();
+    let envelope = src.chance(1, 4);
+    let known = known_tags(mt);
+    let mut mutation = String::from("valid");
+    let mut tag = String::new();
+    let mut bad_content = false;
+    let n = toks.len();
+    match src.below(12) {
+        0 => {} // unmutated
+        1 => {
+            let cand: Vec<&&str> = UNKNOWN_TAGS.iter().filter(|t| !known.iter().any(|k| k == **t)).collect();
+            let t = cand[src.below(cand.len())].to_string();
+            let pos = src.below(n + 1);
+            toks.insert(pos, Tok { tag: t.clone(), content: "HELLO".into() });
+            mutation = if pos == n { "unknown-tag-at-end".into() } else if pos == 0 { "unknown-tag-at-start".into() } else { "unknown-tag-inside".into() };
+            tag = t;
+        }
+        2 => {
+            // a field of the type, copied to a position where it does not belong
+            let i = src.below(n);
+            let pos = src.below(n + 1);
+            let t = toks[i].clone();
+            tag = t.tag.clone();
+            toks.insert(pos, t);
+            mutation = if pos == i || pos == i + 1 { "dup-adjacent".into() } else if pos == n { "dup-at-end".into() } else { "dup-distant".into() };
+        }
+        3 => {
+            if n >= 2 {
+                let i = src.below(n - 1);
+                if toks[i].tag != toks[i + 1].tag {
+                    toks.swap(i, i + 1);
+                    mutation = "swap-adjacent".into();
+                    tag = toks[i + 1].tag.clone();
+                }
+            }
+        }
+        4 => {
+            if n >= 3 {
+                let i = src.below(n);
+                let t = toks.remove(i);
+                let pos = src.below(n);
+                tag = t.tag.clone();
+                toks.insert(pos, t);
+                mutation = "move".into();
+            }
+        }
+        5 => {
+            let k = 1 + src.below(3);
+            for _ in 0..k {
+                let t = match src.below(3) {
+                    0 => toks[toks.len() - 1].clone(),
+                    1 => toks[src.below(n)].clone(),
+                    _ => Tok { tag: UNKNOWN_TAGS[src.below(UNKNOWN_TAGS.len())].to_string(), content: "TRAIL".into() },
+                };
+                tag = t.tag.clone();
+                toks.push(t);
+            }
+            mutation = "append-after-last".into();
+        }
+        6 => {
+            // exceed the documented repetition cap by repeating the last sequence occurrence
+            if let Some((_, cap)) = CAPS.iter().find(|(m, _)| *m == mt) {
+                let last_path: Option<Vec<usize>> = base.fields.iter().rev().find(|f| !f.path.is_empty()).map(|f| f.path.clone());
+                if let Some(lp) = last_path {
+                    let idx: Vec<usize> = base.fields.iter().enumerate().filter(|(_, f)| f.path == lp).map(|(i, _)| i).collect();
+                    let have = lp[0] + 1;
+                    let extra = *cap + 1 + src.below(5) - have.min(*cap);
+                    let insert_at = idx[idx.len() - 1] + 1;
+                    let unit: Vec<Tok> = idx.iter().map(|i| toks[*i].clone()).collect();
+                    let mut add = Vec::new();
+                    for _ in 0..extra {
+                        add.extend(unit.clone());
+                    }
+                    tag = unit[0].tag.clone();
+                    let tail = toks.split_off(insert_at);
+                    toks.extend(add);
+                    toks.extend(tail);
+                    mutation = "over-cap".into();
+                }
+            }
+        }
+        7 | 8 => {
+            let i = src.below(n);
+            if let Some(bad) = bad_content_for(&toks[i].tag, src) {
+                toks[i].content = bad;
+                tag = toks[i].tag.clone();
+                mutation = "bad-content".into();
+                bad_content = true;
+            }
+        }
+        9 => {
+            let i = src.below(n);
+            tag = toks[i].tag.clone();
+            toks.remove(i);
+            mutation = "delete".into();
+        }
+        10 => {
+            // a field of another message type that this type does not know
+            let other = MSGS[src.below(MSGS.len())].mt;
+            let ok: Vec<String> = known_tags(other).into_iter().filter(|t| !known.contains(t)).collect();
+            if !ok.is_empty() {
+                let t = ok[src.below(ok.len())].clone();
+                if let Some(sp) = crate::fieldkit::spec_of_tag(&t) {
+                    let g = sp.g.generate(src);
+                    let pos = src.below(n + 1);
+                    toks.insert(pos, Tok { tag: t.clone(), content: g.text });
+                    mutation = "foreign-field".into();
+                    tag = t;
+                }
+            }
+        }
+        _ => {
+            // same tag with another option letter of some family, not allowed in this slot
+            let i = src.below(n);
+            let base_tag = toks[i].tag[0..2].to_string();
+            let letter = src.pick_char("ABCDEFGHJKLMNPRSTZ").to_string();
+            let t = format!("{base_tag}{letter}");
+            if !known.contains(&t) {
+                tag = t.clone();
+                toks[i].tag = t;
+                mutation = "foreign-option-letter".into();
+            }
+        }
+    }
+    MutCase { mt: mt.to_string(), toks, mutation, tag, bad_content, crlf, wrapper, envelope }
 }
